@@ -103,3 +103,73 @@ Theorem simulate_zero_residual (sky : R) normalize (g K : RK) data m c k :
   (nth k (@masked_data ROps _ g data m) 0 -
    nth k (@convolve ROps c (@slim_of ROps g (unmasked m)) (@slim_of ROps g (unmasked (bmask c)))) 0 = 0)%R.
 Proof. intros Hg Hm Hs Hsim Hc. rewrite (simulate_masked_agrees sky normalize g K data m c Hg Hm Hs Hsim Hc). lra. Qed.
+
+(* ---- one-hot (basis / unit-shift) kernels: the convolution is a shift of the image scaled by the entry ---- *)
+Lemma NoDup_kcells (K : RK) : NoDup (kcells K).
+Proof. unfold kcells. apply NoDup_list_prod; apply NoDup_seqZ. Qed.
+Lemma in_kcells (K : RK) ij : In ij (kcells K) <-> (0 <= fst ij < rows K /\ 0 <= snd ij < cols K).
+Proof. unfold kcells. destruct ij as [i j]. rewrite in_prod_iff, !in_seqZ. cbn [fst snd]. lia. Qed.
+
+Theorem conv_full_one_hot (N : px -> R) (K : RK) ab c t :
+  @one_hot ROps K ab c -> @conv_full ROps N K t = (c * N (@shift_src ROps K t ab))%R.
+Proof.
+  intros (Hin0 & Hc & Hz0). rewrite conv_full_cells. change (getZ (@zero ROps) K ab) with (kval K ab) in Hc.
+  assert (Hin : In ab (kcells K)) by (apply in_kcells; exact Hin0).
+  assert (Hz : forall ij, In ij (kcells K) -> ij <> ab -> kval K ij = 0%R) by (intros ij Hi Hne; apply (Hz0 ij); [apply in_kcells; exact Hi | exact Hne]).
+  change (@shift_src ROps K t ab) with (@shift_src ROps K t ab).
+  rewrite (sumR_map_ext _ (fun s => if px_eqb s ab then (kval K s * N (src K t s))%R else 0%R)).
+  - rewrite (sumR_indicator px_eqb (fun s => (kval K s * N (src K t s))%R) ab (kcells K) px_eqb_eq (NoDup_kcells K)).
+    replace (existsb (fun s => px_eqb s ab) (kcells K)) with true; [now rewrite Hc|].
+    symmetry. apply existsb_exists. exists ab. split; [exact Hin | apply px_eqb_refl].
+  - intros s Hs. destruct (px_eqb s ab) eqn:E; [reflexivity|]. apply px_eqb_neq in E. rewrite (Hz s Hs E). lra.
+Qed.
+
+(* the whole-frame method with a one-hot kernel of odd shape: the image shifted by (centre - position), times the entry *)
+Theorem whole_one_hot m (g : RK) (K : RK) ab c :
+  oddb (rows K) && oddb (cols K) = true -> @one_hot ROps K ab c ->
+  @convolved_array_checked ROps m g K =
+  Ok (map (fun t => (c * @img_fun ROps g (@shift_src ROps K t ab))%R) (unmasked m)).
+Proof.
+  intros Ho H1. rewrite whole_checked_cases, Ho. f_equal. apply map_ext. intros t.
+  now rewrite (conv_full_one_hot _ K ab c t H1).
+Qed.
+
+(* the masked convolver with a one-hot kernel: the combined image shifted, times the entry *)
+Theorem convolve_one_hot m (K : RK) cv (img bimg : list R) ab c :
+  rectb m = true -> @convolver_init ROps m K = Ok cv ->
+  length img = length (unmasked m) -> length bimg = length (unmasked (bmask cv)) -> @one_hot ROps K ab c ->
+  @convolve ROps cv img bimg =
+  map (fun t => (c * @combined ROps m (bmask cv) img bimg (@shift_src ROps K t ab))%R) (unmasked m).
+Proof.
+  intros Hr Hc Hl Hb H1. rewrite (convolve_eq_map m K cv img bimg Hr Hc Hl Hb). apply map_ext. intros t.
+  now rewrite (conv_full_one_hot _ K ab c t H1).
+Qed.
+
+(* a unit one-hot kernel leaves every image unchanged ONLY when its entry sits at the centre: for an off-centre position
+   there is, at every pixel, an image that the convolution changes (so "one non-zero entry and sum 1" is not "no blur") *)
+Theorem unit_kernel_identity_iff_centred (K : RK) ab :
+  @one_hot ROps K ab 1%R ->
+  ((forall (N : px -> R) t, @conv_full ROps N K t = N t) <-> ab = (rows K / 2, cols K / 2)).
+Proof.
+  intros H1. split.
+  - intros Hid. pose (N := fun q : px => if px_eqb q (0, 0) then 1%R else 0%R).
+    specialize (Hid N (0, 0)). rewrite (conv_full_one_hot N K ab 1%R _ H1) in Hid.
+    unfold N in Hid. cbv beta in Hid. rewrite (px_eqb_refl (0, 0)) in Hid.
+    destruct (px_eqb (@shift_src ROps K (0, 0) ab) (0, 0)) eqn:E.
+    + apply px_eqb_eq in E. unfold shift_src in E. destruct ab as [a b]. cbn [fst snd] in E. inversion E. f_equal; lia.
+    + lra.
+  - intros -> N t. rewrite (conv_full_one_hot N K _ 1%R t H1).
+    assert (E : @shift_src ROps K t (rows K / 2, cols K / 2) = t).
+    { unfold shift_src; destruct t as [y x]; cbn [fst snd T ROps]. f_equal; lia. }
+    rewrite E. lra.
+Qed.
+
+(* non-vacuity witness: the 3x3 kernel with the 1 at [1,2] *)
+Lemma one_hot_example : @one_hot ROps [[0; 0; 0]; [0; 0; 1]; [0; 0; 0]]%R (1, 2) 1%R.
+Proof.
+  split; [vm_compute; repeat split; discriminate|]. split; [reflexivity|].
+  intros [i j] [Hi Hj] Hne. cbn [fst snd] in Hi, Hj.
+  change (rows [[0; 0; 0]; [0; 0; 1]; [0; 0; 0]]%R) with 3 in Hi. change (cols [[0; 0; 0]; [0; 0; 1]; [0; 0; 0]]%R) with 3 in Hj.
+  assert (Hc : (i = 0 \/ i = 1 \/ i = 2) /\ (j = 0 \/ j = 1 \/ j = 2)) by lia.
+  destruct Hc as [[Ei | [Ei | Ei]] [Ej | [Ej | Ej]]]; subst i j; try reflexivity. now elim Hne.
+Qed.
